@@ -1,5 +1,5 @@
 From Coq Require Extraction ExtrOcamlBasic.
 From Wz Require Import lib.Bytes lib.ExtractBase C09.Base C09.Gen C09.Model.
 Extraction Language OCaml.
-Extraction "C09/model_extracted.ml" force_types run ls_init und_init readinto_unrepaired
+Extraction "C09/model_extracted.ml" force_types run ls_init und_init readinto_unrepaired readall_unrepaired
   get_input_stream_gen get_content_length_gen plain_int_gen.
